@@ -228,7 +228,11 @@ func (h *FBDNSDB) watchDBAndReload(watcher *fsnotify.Watcher) (err error) {
 		case <-h.done:
 			return nil
 		case ev := <-watcher.Events:
-			if filterEvent(ev.Op) && path.Clean(ev.Name) == h.dbConfig.Path {
+			// Reload updates the path under reloadMu
+			h.reloadMu.RLock()
+			dbPath := h.dbConfig.Path
+			h.reloadMu.RUnlock()
+			if filterEvent(ev.Op) && path.Clean(ev.Name) == dbPath {
 				h.ReloadChan <- *NewPartialReloadSignal()
 			}
 		}
